@@ -469,6 +469,16 @@ class WriterK1(object):
                         problems.append(('diff-inherits', name, _lab(enc), None))
             result['sig'] = tuple(sorted((k, repr(canon(v, oracle))) for k, v in obj.attrs.items()))
             state['mark'] = None if False else state['mark']
+        # the scope stack also determines the id a content call computes: a call the
+        # hierarchy allows must be accepted (order rejections only)
+        from sa.roles import spec_follow, SPEC_IDS
+        nxt, prev = result.get('next_id'), result.get('prev_id')
+        if nxt is not None and prev is not None and not getattr(self, 'last_abstract', False):
+            legal = nxt in spec_follow().get(prev, set()) or (prev, nxt) == ('..meta', '.change')
+            order_rej = any(r[0] == 'DiffXSectionOrderError' for r in result['raises'])
+            if legal and not result['accepted'] and order_rej:
+                problems.append(('rejects-legal-call', seq[-1][0], 'rejected after %s' % prev, 'accepted (%s may follow %s)' % (nxt, prev)))
+                result['accepted'] = True      # report it
         uniq = []
         for pr in problems:
             if pr not in uniq:
